@@ -300,6 +300,7 @@ pub fn worker_main(prop: &dyn Prop, args: &[String]) -> i32 {
     let mut stopped: Vec<u64> = Vec::new(); // per seg: first index of this shard NOT executed (>= count if done)
     let mut timed_out = false;
     let mut seq: u64 = 0;
+    let mut slowest: (f64, usize, u64) = (0.0, 0, 0);
     for (si, seg) in segs.iter().enumerate() {
         let mut idx = shard;
         while idx < seg.count {
@@ -317,7 +318,20 @@ pub fn worker_main(prop: &dyn Prop, args: &[String]) -> i32 {
             buf[8..16].copy_from_slice(&idx.to_le_bytes());
             buf[16..24].copy_from_slice(&seq.to_le_bytes());
             let _ = pf.write_at(&buf, 0);
+            let t_case = Instant::now();
             let e = exec_case(prop, tier, &cfg, si, idx);
+            let dt = t_case.elapsed().as_secs_f64();
+            if dt > slowest.0 {
+                slowest = (dt, si, idx);
+            }
+            if dt > 0.5 {
+                // development aid: MC_SLOW_LOG=<file> lists every execution that took more than half a second
+                if let Ok(f) = std::env::var("MC_SLOW_LOG") {
+                    if let Ok(mut fh) = std::fs::OpenOptions::new().create(true).append(true).open(f) {
+                        let _ = writeln!(fh, "{} {} {} {:.2}", prop.id(), si, idx, dt);
+                    }
+                }
+            }
             execs += 1;
             for f in &e.fps {
                 fps.insert(*f);
@@ -366,6 +380,7 @@ pub fn worker_main(prop: &dyn Prop, args: &[String]) -> i32 {
         "stopped": stopped,
         "timed_out": timed_out,
         "wall_s": t0.elapsed().as_secs_f64(),
+        "slowest": [slowest.0, slowest.1, slowest.2],
     });
     std::fs::write(&outfile, serde_json::to_vec(&out).unwrap()).unwrap();
     0
@@ -541,6 +556,8 @@ pub struct CfgResult {
     pub timed_out: bool,
     pub crashes: Vec<(usize, u64, String)>,
     pub incomplete_shards: u64,
+    /// slowest single execution: (seconds, segment, index)
+    pub slowest: (f64, usize, u64),
 }
 
 fn run_cfg(prop: &dyn Prop, tier: Tier, cfg: &str, paths: &Paths, nshards: u64) -> Result<CfgResult, String> {
@@ -570,6 +587,7 @@ fn run_cfg(prop: &dyn Prop, tier: Tier, cfg: &str, paths: &Paths, nshards: u64) 
         timed_out: false,
         crashes: vec![],
         incomplete_shards: 0,
+        slowest: (0.0, 0, 0),
     };
     let mut running: Vec<Shard> = (0..nshards).map(|s| spawn_worker(&bin, id, tier, cfg, s, nshards, &paths.scratch, budget, &[])).collect();
     let mut done: Vec<Shard> = Vec::new();
@@ -654,6 +672,12 @@ fn run_cfg(prop: &dyn Prop, tier: Tier, cfg: &str, paths: &Paths, nshards: u64) 
         }
         for (k, c) in v["fail_count"].as_object().unwrap() {
             *res.fail_count.entry(k.clone()).or_insert(0) += c.as_u64().unwrap();
+        }
+        if let Some(sl) = v["slowest"].as_array() {
+            let t = sl[0].as_f64().unwrap_or(0.0);
+            if t > res.slowest.0 {
+                res.slowest = (t, sl[1].as_u64().unwrap_or(0) as usize, sl[2].as_u64().unwrap_or(0));
+            }
         }
         if v["timed_out"].as_bool().unwrap() {
             res.timed_out = true;
@@ -931,6 +955,7 @@ pub fn check_main(prop: &dyn Prop, tier: Tier, verif_root: &Path) -> i32 {
                 })).collect::<Vec<_>>(),
                 "executions": r.execs,
                 "wall_cap_hit": r.timed_out,
+                "slowest_execution": {"seconds": (r.slowest.0 * 1000.0).round() / 1000.0, "segment": r.segs.get(r.slowest.1).map(|s| s.name.clone()).unwrap_or_default(), "idx": r.slowest.2},
                 "crashed_or_hung_executions": r.crashes.iter().map(|(s,i,w)| json!({"segment": r.segs[*s].name, "idx": i, "why": w})).collect::<Vec<_>>(),
                 "aborted_executions": r.aborted.iter().map(|(k,(c,s,i))| json!({"panic_site":k,"count":c,"first_segment": r.segs[*s].name,"first_idx":i})).collect::<Vec<_>>(),
             })
